@@ -6,9 +6,7 @@ from .readerlib import both_modes, dump_dict
 ID = 'C11'
 TARGETS = ['theories/Properties/C11.vo']
 THEOREMS = core.theorems_of(ID)
-LEVEL = ('reader model: hashed bytes = consumed bytes (the skip path copies instead of seeking when hashing); proved: for a well-formed file the reader consumes '
-         'the whole file, so the hashed prefix is the file, for every fragmentation and with or without skip_frames (fragment-level read loop in Model/Frag.v); '
-         'XXH3 itself is an oracle: the streaming digest of the real run is compared with the one-shot xxh3_64 of the same crate')
+LEVEL = ('proved (Properties/C11.v): for EVERY well-formed replay, with or without skip_frames, the reader consumes the whole file and the hashed prefix is the whole file (model: hashed bytes = consumed bytes; the skip path copies instead of seeking when hashing), no hash when not requested; independence of read fragmentation is exercised by the differential run with fragmenting readers (whole, 1-byte, fixed, irregular, two-piece); XXH3 itself is an oracle: the streaming digest of the real run is compared with the one-shot xxh3_64 over the same bytes')
 
 
 def run(ctx):
